@@ -76,6 +76,9 @@ def gen_problem(rng, family=None, nmax=6, mmax=3, fixed_prob=0.3, allow_dom=True
     cu = np.zeros(m)
     for i in range(m):
         t = int(rng.integers(0, 4))
+        if rng.random() < 0.04 and family in ("qp", "nlp", "degenerate"):
+            cl[i], cu[i] = -INF, INF  # a free row: declared, but it constrains nothing
+            continue
         if t == 0:
             # equality, right-hand side zero or non-zero (offset path)
             if rng.random() < 0.5:
@@ -313,6 +316,9 @@ def gen_params(rng, spec, x0, y0, *, p_knob=0.5, scaling=True, globalized=True, 
                 kw["scaling"]["var"] = [0] * spec["n"]  # objective-only scaling
                 kw["scaling"]["cons"] = [0] * spec["m"]
                 kw["scaling"]["obj"] = int(rng.choice([-3, -1, 1, 2]))
+            elif u_ < 0.24:
+                kw["scaling"]["cons"] = [0] * spec["m"]  # variables-only scaling
+                kw["scaling"]["obj"] = 0
         else:
             kw["scaling_primal"] = "x0"
             kw["scaling_dual"] = "y0"
